@@ -97,8 +97,8 @@ def zipStart (g : BlkInfo) (H : List BlkInfo) : DurableZ :=
 def zstepOfLabel (l : String) (afterSandboxSync : Bool) : Option ZStep :=
   if l.startsWith "lmdb:after-commit(after:kernel/pmmr_prun.bin)" && afterSandboxSync then some .commit
   else if l.startsWith "emu.replace:clean-partial" then some .cleanPartial
-  else if l.startsWith "emu.replace:after-clean" then some .clean
-  else if l.startsWith "emu.replace:after-rename" then some .rename
+  else if l.startsWith "txhashset_replace:after-clean" then some .clean
+  else if l.startsWith "txhashset_replace:after-rename" then some .rename
   else none
 
 end GV.Crash
